@@ -226,8 +226,9 @@ Proof.
     { intros b k. unfold p_add_contract in Eadd. simpl in Eadd.
       destruct (p_contracts p (code_hash (e_info e))).
       - inversion Eadd; subst p2. rewrite pslot_put, pslot_remove. reflexivity.
-      - destruct (code (e_info e)); inversion Eadd; subst p2.
-        unfold pslot, fdel. simpl. destruct (b =? a); reflexivity. }
+      - destruct (code (e_info e)); inversion Eadd; subst p2;
+          [unfold pslot, fdel; simpl; destruct (b =? a); reflexivity
+          |rewrite pslot_put, pslot_remove; reflexivity]. }
     assert (Hts2 : p_ts p2 = p_ts p).
     { unfold p_add_contract in Eadd. simpl in Eadd.
       destruct (p_contracts p (code_hash (e_info e))); [inversion Eadd; reflexivity|].
@@ -235,7 +236,7 @@ Proof.
     assert (Hc2 : contracts_rel d p2 r).
     { intros h. specialize (Hc h). unfold p_add_contract in Eadd. simpl in Eadd.
       destruct (p_contracts p (code_hash (e_info e))) eqn:Eh; [inversion Eadd; subst p2; exact Hc|].
-      destruct (code (e_info e)) as [c|] eqn:Ecode; inversion Eadd; subst p2. simpl.
+      destruct (code (e_info e)) as [c|] eqn:Ecode; inversion Eadd; subst p2; [|exact Hc]. simpl.
       unfold fset. destruct (N.eqb_spec h (code_hash (e_info e))) as [->|]; [|exact Hc].
       rewrite Eh in Hc. destruct (r_contracts r (code_hash (e_info e))); [discriminate Hc|].
       right. f_equal. symmetry. now apply Hcode. }
